@@ -4,21 +4,31 @@ import os
 
 from vlib import MachineryError
 
-ACTIONS = ["TopFail", "Top", "Spawn", "Begin", "Step", "EndExec", "Commit", "Exit"]
+ACTIONS = ["TopFail", "Top", "Ensure", "Spawn", "Begin", "Step", "EndExec", "Commit", "Exit", "Cancel"]
 
 
 def tla_set(xs):
     return "{" + ", ".join('"%s"' % x for x in xs) + "}"
 
 
-def consts(K=3, acc=("x",), level=2, maxlen=1, fates=("ok",), maxfail=1, world=True, impl="required", maxops=0):
+def consts(K=3, acc=("x",), level=2, maxlen=1, fates=("ok",), maxfail=1, world=("W",), ensure=False, impl="required",
+           implwr="required", cancel=False, maxops=0):
+    if world is True:
+        world = ("W",)
+    elif world is False:
+        world = ()
     return dict(K=K, Acc=tla_set(acc), Level=level, Impl='"%s"' % impl, MaxLen=maxlen, Fates=tla_set(fates),
-                MaxFail=maxfail, WorldTx="TRUE" if world else "FALSE", RetryCount=2, MaxOps=maxops)
+                MaxFail=maxfail, WorldTx=tla_set(world), EnsureTx="TRUE" if ensure else "FALSE",
+                ImplWR='"%s"' % implwr, CancelOn="TRUE" if cancel else "FALSE", RetryCount=2, MaxOps=maxops)
 
 
 def model_check(ctx, label, allow_zero=(), **kw):
     r = ctx.model_check("exec", "MC_ParallelExec", "MC_ParallelExec.cfg", constants=consts(**kw), coverage=True,
                         timeout=ctx.pick(900, 3000), label=label)
+    if not kw.get("ensure"):
+        allow_zero = tuple(allow_zero) + ("Ensure",)
+    if not kw.get("cancel"):
+        allow_zero = tuple(allow_zero) + ("Cancel",)
     ctx.check_coverage(r, [a for a in ACTIONS if a not in allow_zero], allow_zero=allow_zero)
     return r
 
@@ -57,7 +67,8 @@ def validate_traces(ctx, recs, cases_by_id, maxfates=("ok", "fatal", "retry1", "
             by.setdefault(key, []).append((r["case"], ex["trace"]))
     total = 0
     for (level, k, acc), items in sorted(by.items()):
-        c = consts(K=k, acc=acc, level=level, maxlen=2, fates=maxfates, maxfail=k)
+        c = consts(K=k, acc=acc, level=level, maxlen=2, fates=maxfates, maxfail=k, world=("R", "W"), ensure=True,
+                   implwr="code")
 
         def accepted(trs, label):
             data = "".join(json.dumps(t, sort_keys=True) + "\n" for t in trs)
